@@ -212,7 +212,9 @@ let print_out (fl : flavour) (o : out) : string =
            (try Unix.mkdir dir 0o755 with _ -> ());
            write_file (dir ^ "/" ^ nm ^ ".htx") h; write_file (dir ^ "/" ^ nm ^ ".key") k; write_file (dir ^ "/" ^ nm ^ ".val") v
          | None -> ());
-        Printf.sprintf " %s.htx=%s %s.key=%s %s.val=%s" nm (sum h) nm (sum k) nm (sum v)) l)
+        (* file names through the extracted Names.file_name *)
+               let fname kd = string_of_bytes (file_name (bytes_of_string nm) kd) in
+               Printf.sprintf " %s=%s %s=%s %s=%s" (fname KHtx) (sum h) (fname KKey) (sum k) (fname KVal) (sum v)) l)
 
 (* ---- which paths of the model a history exercised (written to $VERIF_FEATURES, aggregated into the evidence) ---- *)
 let features : (string, int) Hashtbl.t = Hashtbl.create 32
@@ -533,7 +535,9 @@ let io_run_ops file =
                   (try Unix.mkdir dir 0o755 with _ -> ());
                   write_file (dir ^ "/" ^ nm ^ ".htx") h; write_file (dir ^ "/" ^ nm ^ ".key") k; write_file (dir ^ "/" ^ nm ^ ".val") v
                 | None -> ());
-               Printf.sprintf " %s.htx=%s %s.key=%s %s.val=%s" nm (sum h) nm (sum k) nm (sum v)) l)
+               (* file names through the extracted Names.file_name *)
+               let fname kd = string_of_bytes (file_name (bytes_of_string nm) kd) in
+               Printf.sprintf " %s=%s %s=%s %s=%s" (fname KHtx) (sum h) (fname KKey) (sum k) (fname KVal) (sum v)) l)
            | other -> "skip:" ^ other in
          print_endline out;
          Stdlib.flush stdout
